@@ -22,9 +22,12 @@ Line(G) ==
   ELSE IF Mode = "id"
   THEN [g |-> [n |-> G.n, d |-> G.d, b |-> G.b],
         \* 5th field: how often line 7 fires on one recursion path (ID.tla L7Depth)
-        qs |-> {<<p[1], p[2], {}, ~IsFail(IDRef(G, p[1], p[2])), L7Depth(p[2], p[1], G)>> : p \in Queries(G)}]
+        \* 6th field: another recursive step (line 2, 3, 4 or 7) happens inside a sub-problem created by line 7
+        qs |-> {<<p[1], p[2], {}, ~IsFail(IDRef(G, p[1], p[2])), L7Depth(p[2], p[1], G), DeepAfter7(p[2], p[1], G)>> : p \in Queries(G)}]
   ELSE [g |-> [n |-> G.n, d |-> G.d, b |-> G.b],
-        qs |-> {<<p[1], p[2], p[3], ~IsFail(IDCf(G, p[1], p[2], p[3]))>> : p \in CQueries(G)}]
+        \* 5th field: the final ID call of IDC takes another recursive step inside a sub-problem created by line 7
+        qs |-> {<<p[1], p[2], p[3], ~IsFail(IDCf(G, p[1], p[2], p[3])),
+                  LET f == IDCFinal(G, p[1], p[2], p[3]) IN f[1] # {} /\ DeepAfter7(f[2], f[1], G)>> : p \in CQueries(G)}]
 Run == /\ phase = "chosen" /\ phase' = "done" /\ g' = g
        /\ PrintT(<<"IDG", ToJson(Line(g))>>)
 Spec == Init /\ [][Run]_vars
